@@ -266,7 +266,7 @@ theorem step_underLease {cl : List Sid} {c : Client} (cfg : Cfg) (hi : Inv cl c)
     (match (underLease cfg c h a).2.1.result with
      | .error _ => (underLease cfg c h a).1.conns.lookup h = none
      | .ok _ => (underLease cfg c h a).1.conns.lookup h ≠ none →
-         ∃ r fe cd, loopRes a.recvs = .done r fe cd ∧ reusable cfg r fe cd = true ∧ a.setAsync = true) := by
+         ∃ r fe cd, loopRes a.recvs = .done r fe cd ∧ reusable cfg r fe cd a.residue = true ∧ a.setAsync = true) := by
   have hp := step_preSend hi h a
   unfold underLease
   generalize hx : preSend c h a = x at hp
@@ -284,10 +284,10 @@ theorem step_underLease {cl : List Sid} {c : Client} (cfg : Cfg) (hi : Inv cl c)
       cases hlr : loopRes a.recvs with
       | fail e => exact ⟨by simpa [List.append_assoc] using hall, hdrop.2⟩
       | done r fe cd =>
-        by_cases hk : (reusable cfg r fe cd && a.setAsync) = true
+        by_cases hk : (reusable cfg r fe cd a.residue && a.setAsync) = true
         · simp only [hk, if_true]
           refine ⟨hsend, fun _ => ⟨r, fe, cd, rfl, ?_, ?_⟩⟩ <;> simp_all
-        · have hk' : (reusable cfg r fe cd && a.setAsync) = false := by simpa using hk
+        · have hk' : (reusable cfg r fe cd a.residue && a.setAsync) = false := by simpa using hk
           simp only [hk', Bool.false_eq_true, if_false]
           exact ⟨by simpa [List.append_assoc] using hall, fun hne => absurd hdrop.2 hne⟩
     · have hs' : a.send = false := by simpa using hs
@@ -335,7 +335,7 @@ theorem exec_cache {cl : List Sid} {c : Client} (cfg : Cfg) (hi : Inv cl c) (h :
     match (executeRequest cfg c true h a).2.1.result with
     | .error _ => (executeRequest cfg c true h a).1.conns.lookup h = none
     | .ok _ => (executeRequest cfg c true h a).1.conns.lookup h ≠ none →
-        ∃ r fe cd, loopRes a.recvs = .done r fe cd ∧ reusable cfg r fe cd = true ∧ a.setAsync = true := by
+        ∃ r fe cd, loopRes a.recvs = .done r fe cd ∧ reusable cfg r fe cd a.residue = true ∧ a.setAsync = true := by
   have hs := (step_underLease cfg (hi.setLeased (h :: c.leased)) h a).2
   unfold executeRequest
   simp only [Bool.not_true, Bool.false_eq_true, if_false, hl]
